@@ -58,9 +58,10 @@ type CompleteMultipartUploadRequest struct {
 
 func (c CompleteMultipartUploadRequest) partsAreSorted() bool {
 	// partIDs returns a sorted copy, so the order has to be checked on the
-	// parts as they were sent:
+	// parts as they were sent. The list has to be strictly ascending: a part
+	// number named twice would be assembled into the object twice.
 	for i := 1; i < len(c.Parts); i++ {
-		if c.Parts[i].PartNumber < c.Parts[i-1].PartNumber {
+		if c.Parts[i].PartNumber <= c.Parts[i-1].PartNumber {
 			return false
 		}
 	}
